@@ -1180,6 +1180,13 @@ impl WorldC {
             if let Err((c, d)) = r {
                 viols.push((if self.is_stake { "cw4-stake-list-members".into() } else { "cw4-group-list-members".into() }, c, d));
             }
+            for (a, w) in expected.iter().take(40) {
+                if let Ok(q) = chain.query::<cw4::MemberResponse>("group", &json!({"member":{"addr": a, "at_height": null}})) {
+                    if q.weight != Some(*w) {
+                        viols.push((if self.is_stake { "cw4-stake-list-members".into() } else { "cw4-group-list-members".into() }, "listed-item-ne-point-query".into(), format!("{}: listed {} but Member says {:?}", a, w, q.weight)));
+                    }
+                }
+            }
         }
         for m in self.msigs.clone() {
             let dump = self.chain.dump(&m.label);
@@ -1206,6 +1213,11 @@ impl WorldC {
             );
             if let Err((c, d)) = r {
                 viols.push((format!("{}-list-proposals", name), c, d));
+            }
+            for id in ids.iter().rev().take(12) {
+                if chain.query::<cw3::ProposalResponse>(&m.label, &json!({"proposal":{"proposal_id": id}})).map(|p| p.id) != Ok(*id) {
+                    viols.push((format!("{}-list-proposals", name), "listed-item-ne-point-query".into(), format!("proposal {} is listed but Proposal{{}} does not return it", id)));
+                }
             }
             let rev: Vec<u64> = ids.iter().rev().cloned().collect();
             let r = check_paging::<u64, u64>(
@@ -1235,6 +1247,13 @@ impl WorldC {
             pids.sort_by_key(|id| std::cmp::Reverse(by_prop[id].len()));
             for id in pids.into_iter().take(2) {
                 let exp = by_prop[&id].clone();
+                for (voter, w) in exp.iter().take(20) {
+                    if let Ok(q) = chain.query::<cw3::VoteResponse>(&m.label, &json!({"vote":{"proposal_id": id, "voter": voter}})) {
+                        if q.vote.as_ref().map(|v| v.weight) != Some(*w) {
+                            viols.push((format!("{}-list-votes", name), "listed-item-ne-point-query".into(), format!("proposal {} voter {}: listed weight {} but Vote says {:?}", id, voter, w, q.vote)));
+                        }
+                    }
+                }
                 let r = check_paging::<(String, u64), String>(
                     &exp,
                     &|cur, lim| {
@@ -1276,6 +1295,13 @@ impl WorldC {
             );
             if let Err((c, d)) = r {
                 viols.push((format!("{}-list-voters", name), c, d));
+            }
+            for (a, w) in exp_voters.iter().take(30) {
+                if let Ok(q) = chain.query::<cw3::VoterResponse>(&m.label, &json!({"voter":{"address": a}})) {
+                    if q.weight != Some(*w) {
+                        viols.push((format!("{}-list-voters", name), "listed-item-ne-point-query".into(), format!("{}: listed {} but Voter says {:?}", a, w, q.weight)));
+                    }
+                }
             }
         }
         for (l, c, d) in viols {
